@@ -165,12 +165,12 @@ theorem body_12 (d d' : Dict) (m : Bytes) (h : conv_12_13 d = some d')
   obtain ⟨_, _, rfl⟩ := h
   exact dget_dset_ne _ _ _ _ h2
 
-theorem body_13 (d d' : Dict) (m : Bytes) (h : conv_13_14 d = some d')
+theorem body_13F (fadd : Bytes → Option Bytes) (d d' : Dict) (m : Bytes) (h : conv_13_14F fadd d = some d')
     (h2 : (s "comment" == m) = false) (h3 : (s "response" == m) = false) :
     dget d' m = dget (setVersion d 14) m := by
   have base : dget (dset (setVersion d 14) (s "comment") (Value.str [])) m = dget (setVersion d 14) m :=
     dget_dset_ne _ _ _ _ h2
-  unfold conv_13_14 conv_13_14F at h
+  unfold conv_13_14F at h
   simp only [Option.bind_eq_bind, Option.pure_def] at h
   split at h
   · split at h
@@ -182,6 +182,10 @@ theorem body_13 (d d' : Dict) (m : Bytes) (h : conv_13_14 d = some d')
       · cases h; exact base
       · cases h
   · cases h; exact base
+
+theorem body_13 (d d' : Dict) (m : Bytes) (h : conv_13_14 d = some d')
+    (h2 : (s "comment" == m) = false) (h3 : (s "response" == m) = false) :
+    dget d' m = dget (setVersion d 14) m := body_13F _ d d' m h h2 h3
 
 theorem body_14 (d d' : Dict) (m : Bytes) (h : conv_14_15 d = some d')
     (h2 : (s "websocket" == m) = false) : dget d' m = dget (setVersion d 15) m := by
